@@ -275,6 +275,32 @@ Definition fn2 (f : str) (a b : option Qc) : option Qc :=
   | _, _ => None
   end.
 
+(* the exact one-argument functions: absv (numpy abs) and round (numpy round: half to even) *)
+Definition round_half_even (q : Qc) : Qc :=
+  let n := Qnum (this q) in let d := Zpos (Qden (this q)) in
+  let fl := (n / d)%Z in let r2 := (2 * (n - fl * d))%Z in
+  let z := if (r2 <? d)%Z then fl else if (d <? r2)%Z then (fl + 1)%Z else if Z.even fl then fl else (fl + 1)%Z in
+  mkq z 1.
+Definition fn1 (f : str) (a : option Qc) : option Qc :=
+  match a with
+  | Some x =>
+      if is_f f "no_op" || is_f f "identity" then Some x
+      else if is_f f "absv" then Some (if qc_le 0%Qc x then x else (- x)%Qc)
+      else if is_f f "round" then Some (round_half_even x)
+      else None
+  | None => None
+  end.
+Definition to_nat (a : option Qc) : option nat :=
+  match a with
+  | Some q => match Qden (this q) with 1%positive => if (0 <=? Qnum (this q))%Z then Some (Z.to_nat (Qnum (this q))) else None | _ => None end
+  | None => None
+  end.
+Definition range_at (cx : ectx) (v : str) (i j : option nat) : option Qc :=
+  match vec cx v, i, j with
+  | Some l, Some a, Some b => if (a + comp cx <? b)%nat then nth_error l (a + comp cx) else None
+  | _, _, _ => None
+  end.
+
 Fixpoint eval (cx : ectx) (e : expr) : option Qc :=
   match e with
   | Num ip fp => Some (num_val ip fp)
@@ -287,8 +313,8 @@ Fixpoint eval (cx : ectx) (e : expr) : option Qc :=
   | Pow a b => opow (eval cx a) (eval cx b)
   | Call f [Var v] =>
       if is_f f "index_axis" then match vec cx v with Some l => nth_error l (comp cx) | None => None end
-      else if is_f f "no_op" || is_f f "identity" then var_val cx v else None
-  | Call f [a] => if is_f f "no_op" || is_f f "identity" then eval cx a else None   (* pass-through marker *)
+      else fn1 f (var_val cx v)
+  | Call f [a] => fn1 f (eval cx a)                 (* pass-through marker, absv, round *)
   | Call f [Var v; Num ip []] =>
       if is_f f "index" then
         match vec cx v with
@@ -299,15 +325,13 @@ Fixpoint eval (cx : ectx) (e : expr) : option Qc :=
   | Call f [a; b] => fn2 f (eval cx a) (eval cx b)
   | Call f [Var v; Num i []; Num j []] =>
       if is_f f "index_2d" then match mat cx v with Some m => nth2 m (nat_of_digits i) (nat_of_digits j) | None => None end
-      else if is_f f "index_range" then                                              (* v[i:j] *)
-        match vec cx v with
-        | Some l => if (nat_of_digits i + comp cx <? nat_of_digits j)%nat then nth_error l (nat_of_digits i + comp cx) else None
-        | None => None
-        end
+      else if is_f f "index_range" then range_at cx v (Some (nat_of_digits i)) (Some (nat_of_digits j))   (* v[i:j] *)
       else if is_f f "index_axis" then                                               (* index_axis(A, i, 1) = A[:, i] *)
         if (nat_of_digits j =? 1)%nat then match mat cx v with Some m => nth2 m (comp cx) (nat_of_digits i) | None => None end
         else None
       else None
+  | Call f [Var v; a; b] =>                                                          (* v[a:b] with computed bounds *)
+      if is_f f "index_range" then range_at cx v (to_nat (eval cx a)) (to_nat (eval cx b)) else None
   | Call _ _ => None
   end.
 
@@ -448,42 +472,75 @@ Fixpoint remove_first_char (c : ascii) (s : str) : str :=
   match s with [] => [] | x :: s' => if Ascii.eqb x c then s' else x :: remove_first_char c s' end.
 
 (* ------------------------------------------------------------------------------------------------ Impl: lhs forms *)
-(* split_equation restricted to the plain assignment `=`; None = the inputs this model does not cover
-   (augmented assignment `+=`, no assignment at all). *)
+(* split_equation (pyrates/backend/parser.py): the loop over ['+=', '-=', '*=', '/='] with its `elif '=' in expr` arm,
+   as the code is: `-=`, `*=`, `/=` are reached only when the `=` arm declines (a lone comparison), so `x -= 1` is
+   split at "= " into ("x -", "1", "=") *)
 Definition not_assign_only (s : str) : bool :=
   existsb (fun na => contains na s && negb (contains ["="] (py_replace na [] s)))
           [s2l "<="; s2l ">="; s2l "=="; s2l "!="].
 
-Definition split_equation (s : str) : option (str * str) :=
-  if contains (s2l "+=") s then None
+Definition assign_type (s : str) : option str :=
+  if contains (s2l "+=") s then Some (s2l "+=")
   else if negb (contains ["="] s) then None
-  else if not_assign_only s then None
-  else if contains (s2l " = ") s then split_first (s2l " = ") s
-  else if contains (s2l " =") s then split_first (s2l " =") s
-  else if contains (s2l "= ") s then split_first (s2l "= ") s
-  else split_first ["="] s.
+  else if negb (not_assign_only s) then Some ["="]
+  else if contains (s2l "-=") s then Some (s2l "-=")
+  else if contains (s2l "*=") s then Some (s2l "*=")
+  else if contains (s2l "/=") s then Some (s2l "/=")
+  else None.
 
-Record eqn := { e_lhs : str; e_key : str; e_de : bool; e_rhs : str }.
-(* CRaises: the third branch (`dx/dt = ...`, undocumented) calls str.replace(..., count=1), a TypeError on the pinned
-   interpreter (Python 3.12);  COut: outside this model (augmented assignment, no assignment) *)
-Inductive cres := CEqn (e : eqn) | CRaises | COut.
+Definition split4 (a s : str) : option (str * str) :=
+  if contains (" " :: a ++ [" "]) s then split_first (" " :: a ++ [" "]) s
+  else if contains (" " :: a) s then split_first (" " :: a) s
+  else if contains (a ++ [" "]) s then split_first (a ++ [" "]) s
+  else split_first a s.
+
+Definition split_equation (s : str) : option (str * str * str) :=
+  match assign_type s with
+  | None => None
+  | Some a => match split4 a s with Some (l, r) => Some (l, r, a) | None => None end
+  end.
+
+Record eqn := { e_lhs : str; e_key : str; e_de : bool; e_rhs : str; e_asg : str }.
+(* CRaises: the third notation (`dx/dt = ...`) calls str.replace(..., count=1), a TypeError on the pinned interpreter
+   (Python 3.12) until repair D154;  CValueError: a differential equation with an augmented assignment;
+   COut: no assignment can be found even after the `x = <expr>` completion *)
+Inductive cres := CEqn (e : eqn) | CRaises | CValueError | COut.
 
 Definition before (p s : str) : str := match split_first p s with Some (l, _) => l | None => s end.
 
-Definition mk_eqn (lhs1 rhs : str) (de : bool) : cres :=
-  CEqn {| e_lhs := remove_char " " lhs1; e_key := remove_char " " (before ["("] lhs1); e_de := de; e_rhs := rhs |}.
+Definition mk_eqn (lhs1 rhs : str) (de : bool) (a : str) : cres :=
+  if de && negb (str_eqb a ["="]) then CValueError
+  else CEqn {| e_lhs := remove_char " " lhs1; e_key := remove_char " " (before ["("] lhs1); e_de := de; e_rhs := rhs; e_asg := a |}.
 
-(* _preprocess_expr_str, left-hand side part (the x(t-d) rewrite of the right-hand side is C10's subject) *)
-Definition classify (s : str) : cres :=
+(* _preprocess_expr_str, left-hand side part (the x(t-d) rewrite of the right-hand side is C10's subject);
+   leib = the repair D154 is in the tree *)
+Definition classify_split (leib : bool) (lhs rhs a : str) : cres :=
+  if contains (s2l "d/dt") lhs then
+    mk_eqn (match split_first ["*"] lhs with Some (_, r) => remove_char "*" r | None => [] end) rhs true a
+  else if contains ["'"] lhs then mk_eqn (py_replace ["'"] [] lhs) rhs true a
+  else if contains ["d"] lhs && contains (s2l "/dt") lhs then
+    (if leib then mk_eqn (remove_first_char "d" (before (s2l "/dt") lhs)) rhs true a else CRaises)
+  else mk_eqn lhs rhs false a.
+
+Definition classify_gen (leib : bool) (s : str) : cres :=
   match split_equation s with
-  | None => COut
-  | Some (lhs, rhs) =>
-      if contains (s2l "d/dt") lhs then
-        mk_eqn (match split_first ["*"] lhs with Some (_, r) => remove_char "*" r | None => [] end) rhs true
-      else if contains ["'"] lhs then mk_eqn (py_replace ["'"] [] lhs) rhs true
-      else if contains ["d"] lhs && contains (s2l "/dt") lhs then CRaises
-      else mk_eqn lhs rhs false
+  | Some (l, r, a) => classify_split leib l r a
+  | None =>                                   (* an expression without assignment is completed to `x = <expr>` *)
+      match split_equation (s2l "x = " ++ s) with
+      | Some (l, r, a) => classify_split leib l r a
+      | None => COut
+      end
   end.
+Definition classify : str -> cres := classify_gen false.
+
+(* check_vname (pyrates/frontend/template/operator.py): names that a variable may not have *)
+Definition reserved_names : list str :=
+  map s2l ["y"; "dy"; "source_idx"; "target_idx"; "pi"; "I"; "E"; "S"; "Q"; "O"; "N"; "oo"; "zoo"; "nan";
+           "beta"; "gamma"; "Beta"; "Gamma"; "exp"; "log"; "sin"; "cos"; "tan"; "cot"; "sec"; "csc";
+           "sinh"; "cosh"; "tanh"; "sqrt"; "abs"]%string.
+Definition reserved_parts : list str := map s2l ["_buffer"; "_delays"; "_maxdelay"; "_idx"; "_hist"]%string.
+Definition vname_ok (v : str) : bool :=
+  negb (existsb (str_eqb v) reserved_names) && negb (existsb (fun p => contains p v) reserved_parts).
 
 (* ------------------------------------------------------------------------------------------------ Impl: call surgery *)
 (* ComputeGraph._process_func_call(expr, func, replacement):
@@ -590,8 +647,8 @@ Definition ostr_eqb (a b : option str) : bool :=
   match a, b with Some x, Some y => str_eqb x y | None, None => true | _, _ => false end.
 Definition oq_eqb (a b : option Qc) : bool :=
   match a, b with Some x, Some y => Qeq_bool (this x) (this y) | None, None => true | _, _ => false end.
-Definition eqn_eqb (a : cres) (lhs key : str) (de : bool) (rhs : str) : bool :=
+Definition eqn_eqb (a : cres) (lhs key : str) (de : bool) (rhs asg : str) : bool :=
   match a with
-  | CEqn e => str_eqb (e_lhs e) lhs && str_eqb (e_key e) key && Bool.eqb (e_de e) de && str_eqb (e_rhs e) rhs
+  | CEqn e => str_eqb (e_lhs e) lhs && str_eqb (e_key e) key && Bool.eqb (e_de e) de && str_eqb (e_rhs e) rhs && str_eqb (e_asg e) asg
   | _ => false
   end.
